@@ -21,6 +21,8 @@ def dispatch (line : String) : String :=
     | "hist" => histCmd rest
     | "uhist" => uhistCmd rest
     | "read" => readCmd rest
+    | "sched-err" => schedErrCmd rest
+    | "sched-close" => schedCloseCmd rest
     | "views" => viewsCmd rest
     | "meta" => metaCmd rest
     | "hdr-rec" => hdrRec rest
